@@ -19,11 +19,11 @@ func dispatchMore(cmd string, r *prng, count int, extra string) bool {
 			emit(runBoxSeq(newPRNG(r.next()), i))
 		}
 	case "disc-step":
-		for i := 0; i < count; i++ {
+		for i := 0; i < count && discBadOps < 4; i++ {
 			emit(runDiscStep(newPRNG(r.next()), i))
 		}
 	case "disc-sync":
-		for i := 0; i < count; i++ {
+		for i := 0; i < count && discBadOps < 4; i++ {
 			emit(runDiscSync(newPRNG(r.next()), 100000+i))
 		}
 	case "disc-run":
